@@ -844,7 +844,7 @@ func (so *SimpleOptimizer) transform(node parser.Node) (parser.Expr, bool) {
 		if so.scope.handleConstLits && hasAnyConstLit(so.compSymTab) {
 			s := findSymbolWithScope(so.compSymTab, node.Name, ScopeConstLit)
 			if s != nil && s.Assigned && s.Constant {
-				return s.constLit.toExpr(), true
+				return s.constLit.toExpr(node.NamePos), true
 			}
 		}
 	}
